@@ -96,21 +96,14 @@ theorem stylePiece_control (pre post : List Char) (plain : Bool) (s : σ) (t : L
 theorem renderSeg_visible (cfg : Config) (env : StyleEnv σ) (seg : Segment σ) :
     visiblePieces (renderSeg cfg env seg).toList = if seg.control then [] else seg.text := by
   unfold renderSeg
-  cases hs : seg.style with
-  | none =>
-    simp only
-    by_cases hc : seg.control = true
-    · by_cases ht : cfg.isTerminal = true <;> simp [hc, ht, visiblePieces_cons]
-    · simp [hc, visiblePieces_cons]
-  | some s =>
-    simp only
-    by_cases htr : env.truthy s = true
-    · simp only [htr, if_true, Option.toList_some, visiblePieces_cons, stylePiece_text, stylePiece_control,
-        visiblePieces_nil, List.append_nil]
-    · simp only [htr, Bool.false_eq_true, if_false]
-      by_cases hc : seg.control = true
-      · by_cases ht : cfg.isTerminal = true <;> simp [hc, ht, visiblePieces_cons]
-      · simp [hc, visiblePieces_cons]
+  by_cases hd : (!cfg.isTerminal && seg.control) = true
+  · rw [if_pos hd]; simp only [Bool.and_eq_true] at hd; simp [hd.2]
+  · simp only [hd, Bool.false_eq_true, if_false]
+    cases hs : seg.style with
+    | none => by_cases hc : seg.control = true <;> simp [hc, visiblePieces_cons]
+    | some s =>
+      by_cases htr : env.truthy s = true <;> by_cases hc : seg.control = true <;>
+        simp [htr, hc, visiblePieces_cons, stylePiece_text, stylePiece_control]
 
 /-- The raw loop of `_render_buffer` shows exactly the text of the non-control segments. -/
 theorem filterMap_renderSeg_visible (cfg : Config) (env : StyleEnv σ) (buf : List (Segment σ)) :
@@ -157,29 +150,23 @@ theorem renderSeg_stream (cfg : Config) (env : StyleEnv σ) (seg : Segment σ) (
     pieceStream (renderSeg cfg env seg).toList =
       if seg.control then [] else seg.text.map (fun c => (c, effStyle env seg.style)) := by
   unfold renderSeg
-  cases hs : seg.style with
-  | none =>
-    simp only [effStyle]
-    by_cases hctl : seg.control = true
-    · by_cases ht : cfg.isTerminal = true <;> simp [hctl, ht, pieceStream_cons]
-    · simp [hctl, pieceStream_cons]
-  | some s =>
-    simp only [effStyle]
-    by_cases htr : env.truthy s = true
-    · simp only [htr, if_true, Option.toList_some, pieceStream_cons, stylePiece_control, pieceStream_nil,
-        List.append_nil, hc]
-      by_cases hctl : seg.control = true
-      · simp [hctl]
-      · simp only [hctl, Bool.false_eq_true, if_false]
-        unfold stylePiece
-        by_cases hte : seg.text = []
-        · simp [hte]
-        · have : seg.text.isEmpty = false := by simpa using hte
-          simp [this]
-    · simp only [htr, Bool.false_eq_true, if_false]
-      by_cases hctl : seg.control = true
-      · by_cases ht : cfg.isTerminal = true <;> simp [hctl, ht, pieceStream_cons]
-      · simp [hctl, pieceStream_cons]
+  by_cases hd : (!cfg.isTerminal && seg.control) = true
+  · rw [if_pos hd]; simp only [Bool.and_eq_true] at hd; simp [hd.2]
+  · simp only [hd, Bool.false_eq_true, if_false]
+    cases hs : seg.style with
+    | none => by_cases hctl : seg.control = true <;> simp [hctl, pieceStream_cons, effStyle]
+    | some s =>
+      by_cases htr : env.truthy s = true
+      · by_cases hctl : seg.control = true
+        · simp [htr, hctl, pieceStream_cons, stylePiece_control]
+        · simp only [htr, if_true, Option.toList_some, pieceStream_cons, stylePiece_control, hctl,
+            Bool.false_eq_true, if_false, pieceStream_nil, List.append_nil, effStyle, hc]
+          unfold stylePiece
+          by_cases hte : seg.text = []
+          · simp [hte]
+          · have : seg.text.isEmpty = false := by simpa using hte
+            simp [this]
+      · by_cases hctl : seg.control = true <;> simp [htr, hctl, pieceStream_cons, effStyle]
 
 theorem filterMap_renderSeg_stream (cfg : Config) (env : StyleEnv σ) (buf : List (Segment σ))
     (hc : cfg.colorNone = false) :
